@@ -8,6 +8,7 @@ Stubs: mtscomp's thread pool (sequential, simulator-ordered), tqdm (disabled).
 """
 
 import copy
+import os
 import operator
 
 import numpy as np
@@ -61,6 +62,7 @@ EXPECTED_PROBES = {
             'negative_bound', 'part_of_length_1', 'three_or_more_parts', 'header_offset',
             'array_index_with_cols', 'cbin_cache_eviction_possible', 'numpy_scalar_index',
             'file_order_differs_from_sorted_names', 'non_native_byte_order', 'npy_fortran_order',
+            'recording_replaced_at_same_path_and_reopened',
             'cbin_index_list_not_implemented'],
     'C02': ['reflected_operator', 'cols_before_arith', 'cols_after_arith', 'depth_ge_3',
             'sibling_reread', 'integer_division', 'same_operator_twice_in_a_row',
@@ -216,6 +218,25 @@ def gen(rng, prop, tier):
                     and item['b'] is None and item.get('s') is None:
                 item['a'] = 0
             ops.append({'op': 'read', 'h': 0, 'item': item, 'cols': cols})
+        if cfg['backend'] in ('flat', 'npy') and rng.random() < 0.12:
+            # history: the recording is REPLACED at the same path(s) (another length, other
+            # samples) and opened again in the same process
+            n2 = max(1, n + rng.choice([-5, -1, 3, 11]))
+            from .recording import composition
+            cfg2 = dict(cfg, n=n2, data_seed=rng.randint(0, 2 ** 31),
+                        parts=composition(rng, n2, len(cfg['parts'])) if cfg['backend'] == 'flat'
+                        else [n2])
+            if len(cfg2['parts']) == len(cfg['parts']):
+                ops.append({'op': 'reopen', 'n': n2, 'data_seed': cfg2['data_seed'],
+                            'parts': cfg2['parts']})
+                bounds2 = _bounds_hint(cfg2)
+                for _ in range(rng.randint(1, 8)):
+                    item = gen_item(rng, n2, bounds2)
+                    cols = gen_cols(rng, c)
+                    if cols is not None and item['k'] == 'slice' and item['a'] is None \
+                            and item['b'] is None and item.get('s') is None:
+                        item['a'] = 0
+                    ops.append({'op': 'read', 'h': 0, 'item': item, 'cols': cols})
         return {'engine': NAME, 'cfg': cfg, 'ops': ops}
     if prop == 'C02':
         cfg = gen_recording_cfg(rng, prop, tier, max_n=40, max_c=5)
@@ -232,6 +253,8 @@ def gen(rng, prop, tier):
                 if depth[h] >= 5:
                     continue
                 if rng.random() < 0.22:
+                    if widths[h] == 0:
+                        continue
                     cols = gen_cols(rng, widths[h], p_none=0.0)
                     if rng.random() < 0.12:
                         # a boolean channel mask (NumPy semantics: the columns where it is True)
@@ -239,8 +262,11 @@ def gen(rng, prop, tier):
                         if not any(mask):
                             mask[rng.randrange(widths[h])] = True
                         cols = {'k': 'mask', 'v': mask, 'as': rng.choice(['array', 'list'])}
-                    w = len(np.arange(widths[h])[dec_cols(cols)])
-                    if w < 1:
+                    if rng.random() < 0.04:
+                        cols = {'k': 'idx', 'v': [], 'as': 'list'}   # no channel at all: width 0
+                    empty = cols['k'] == 'idx' and cols['v'] == []
+                    w = 0 if empty else len(np.arange(widths[h])[dec_cols(cols)])
+                    if w < 1 and not empty:
                         continue
                     ops.append({'op': 'select', 'h': h, 'cols': cols})
                     widths[nh] = w
@@ -275,7 +301,7 @@ def gen(rng, prop, tier):
                 if rng.random() < 0.6:
                     h = nh - 1
                 item = gen_item(rng, n, bounds)
-                cols = gen_cols(rng, widths[h], p_none=0.7)
+                cols = gen_cols(rng, widths[h], p_none=0.7) if widths[h] else None
                 if cols is not None and item['k'] == 'slice' and item['a'] is None \
                         and item['b'] is None and item.get('s') is None:
                     item['a'] = 0
@@ -736,6 +762,26 @@ def _execute(plan, ctx, cfg, prop):
                 do_read(step, op['h'], op['item'], op['cols'],
                         'read-equals-numpy' if prop == 'C01' else 'lazy-read-equals-eager')
                 last_read[op['h']] = (op['item'], op['cols'])
+            elif k == 'reopen':
+                rec.close()
+                for pth in rec.paths:       # replaced, not rewritten in place: new files
+                    try:
+                        os.unlink(str(pth))
+                    except OSError:
+                        pass
+                cfg = dict(cfg, n=op['n'], data_seed=op['data_seed'], parts=list(op['parts']))
+                rec = Recording(cfg, root, ctx)
+                A = rec.A
+                n, c = A.shape
+                reader = rec.reader
+                bounds = _bounds_hint(cfg)
+                handles, eager, env, depth = {0: reader}, {0: A}, {0: None}, {0: 0}
+                last_read.clear()
+                ctx.op('reopen')
+                ctx.probe('recording_replaced_at_same_path_and_reopened')
+                ctx.check(tuple(reader.shape) == (n, c), 'reader-shape',
+                          lambda: {'got': list(reader.shape), 'expected': [n, c],
+                                   'after': 'the files were replaced and the recording reopened'})
             elif k == 'iter_chunks':
                 ctx.op('iter_chunks')
                 got = ctx.real('iter_chunks', lambda: list(reader.iter_chunks(cache=op['cache'])))
